@@ -35,6 +35,10 @@ def generate(rng, n, tier, stats):
         nd = len(a['dims']); i = rng.randrange(nd)
         labs, kind = a['labels'][i], a['axdtype'][i]
         news = new_labels(rng, labs, kind, stats)
+        if kind == 'i' and labs and rng.random() < 0.15:
+            # large integer labels next to each other (date codes, identifiers): a label is on the axis or it is not - exactly
+            off = 20150100; labs = [x + off for x in labs]; a['labels'][i] = labs
+            news = [x + off if isinstance(x, int) else x + off for x in news]; stats['large_int_labels']['yes'] += 1
         nk = guess_kind(news) if news else 'f'
         if kind == 'O': nk = 'O'
         fam = rng.choice(['plain', 'plain', 'fill', 'raise', 'method', 'axisobj', 'like'])
